@@ -237,9 +237,17 @@ func c07Exec(input sx.S) (obs sx.S) {
 		}
 	}
 	defer func() { execUnbind = -1 }()
+	typed := len(section(secs, "typedparams")) > 0
+	if typed {
+		execUnbind = sx.Int(section(secs, "root")[0]) // the query type is bound on first use, to c07Typed
+	}
 	root, w, fail := execSetup(secs)
 	if fail != nil {
 		return fail
+	}
+	if typed {
+		q := sx.Int(section(secs, "root")[0])
+		w.objs[q] = &c07Typed{nodeBase{id: q, w: w}}
 	}
 	defer func() {
 		if r := recover(); r != nil {
@@ -442,6 +450,38 @@ func c07Response(er *execRun, res map[string]interface{}, text string, toks []c0
 	return sx.L("r", sx.A(keysOK), dataKind, errsShape, append([]sx.S{"errs"}, errs...), js)
 }
 
+// c07Typed: an operation root found by reflection whose method for f1 takes a parameter that the
+// declared argument type (String) cannot be converted to: ggql refuses the call, the field fails
+type c07Typed struct{ nodeBase }
+
+func (n *c07Typed) F1(a1 bool) (interface{}, error) {
+	return n.w.reflectCall(n.id, 1, []interface{}{a1})
+}
+func (n *c07Typed) F2() (interface{}, error) { return n.w.reflectCall(n.id, 2, nil) }
+
+// c07TypedCases: { f2 f1(a1: "s3") } and variations against type Query { f1(a1: String): Int f2: Int }
+func c07TypedCases(r *rand.Rand) []Case {
+	var out []Case
+	docs := []string{
+		`(f 1 - 2 (args) (dirs)) (f 2 - 1 (args (a 1 (s 3))) (dirs))`,
+		`(f 1 7 1 (args (a 1 (s 4))) (dirs)) (f 2 - 2 (args) (dirs))`,
+		`(f 1 - 2 (args) (dirs)) (f 2 - 1 (args (a 1 (s 3))) (dirs)) (f 3 8 1 (args (a 1 (s 5))) (dirs)) (f 4 9 2 (args) (dirs))`,
+	}
+	for i := 0; i < 9; i++ {
+		text := `(exec (schema (leaf 10 int) (leaf 11 string) (obj 1 (fields (f 1 (n 10) (args (a 1 (n 11)))) (f 2 (n 10) (args))) (ifaces)))` +
+			` (strat (1 R)) (graph (node 1 1 (field 1 (fail 0 nil)) (field 2 (const (int 5))))) (root 1 -1) (any 0)` +
+			` (doc (ops (op query - (vars) ` + docs[i%len(docs)] + `)) (frags)) (calls (call - (vars)))` +
+			` (layouts 0 1 2 3 4) (lseed ` + fmt.Sprint(r.Intn(1000000)) + `) (typedparams 1))`
+		in, err := sx.Parse(text)
+		if err != nil {
+			panic(err)
+		}
+		out = append(out, Case{ID: fmt.Sprintf("t%d", i), Input: in, Tags: []string{"nontrivial", "reflected-method-refuses-the-argument"},
+			Human: "type Query { f1(a1: String): Int f2: Int } with F1(a1 bool) found by reflection"})
+	}
+	return out
+}
+
 func c07Valid(input sx.S) bool {
 	if !execValid(input) {
 		return false
@@ -479,6 +519,7 @@ func c07Gen(r *rand.Rand, tier string) []Case {
 		c.Tags = append(c.Tags, "nontrivial")
 		out = append(out, c)
 	}
+	out = append(out, c07TypedCases(r)...)
 	return out
 }
 
